@@ -1,7 +1,7 @@
 """C20: all commands read a trash directory the same way."""
 import os
 import z3
-from . import purge, restore, readers, dates, trashdirs
+from . import purge, restore, readers, dates, trashdirs, options
 
 PROPERTY = 'C20'
 LEVEL_NOTE = ('relational: every reader is proved against the SAME spec terms '
@@ -13,6 +13,9 @@ LEVEL_NOTE = ('relational: every reader is proved against the SAME spec terms '
               'between restore and the others on the pinned tree: known '
               'finding KF-C20-home-volume.')
 EXPECTED = [
+    'list-options/trash-dirs-are-the-option-values-in-order',
+    'list-options/attribute-is-the-date-unless-size',
+    'list-options/action-is-listing-unless-the-last-action-flag-says-otherwise',
     'trashcli.parse_trashinfo.parse_path.parse_path/post/first-Path-line-unquoted',
     'trashcli.parse_trashinfo.parse_path.parse_path/post/decoder-is-unquote',
     'trashcli.parse_trashinfo.parse_deletion_date.parse_deletion_date/post/',
@@ -48,6 +51,7 @@ def build(S, tier, seed):
     # --trash-dir: list/empty pair it with volume_of(dir) through the
     # selector; restore through TrashDirectories2 (proved above)
     selector_cli_vc(S)
+    options.list_options_vc(S)
 
 
 def selector_cli_vc(S, prefix='selector'):
